@@ -133,6 +133,15 @@ func batchBody(p batchParams, out *batchObs) func() {
 				})
 			}
 		}
+		if p.pre == "connlost-half" {
+			// only the first region is known; its connection has been closed by the server
+			// without the client having noticed yet (nothing was in flight)
+			g, _ := hrpc.NewGetStr(context.Background(), "t", "a")
+			if _, err := w.client.Get(g); err != nil {
+				panic("warm-up failed: " + err.Error())
+			}
+			cl.ResetConns(cl.Owner("t", []byte("a")).Server)
+		}
 		if p.pre == "merge" || p.pre == "merge-half" {
 			for _, k := range p.keys {
 				if p.pre == "merge-half" && k >= "m" {
